@@ -4,6 +4,7 @@
   `restart_refines` (store_refines_map across restarts) and `restart_lists` (reopen_index).
 -/
 import GocoinV.Proofs.C16Disk3
+import GocoinV.Proofs.C16NoLoss
 namespace GocoinV.BlockDB
 
 /-! ### the state after NewBlockDBExt + LoadBlockIndex -/
@@ -19,22 +20,6 @@ theorem reopen_state (env : Env) (fs : FS) (o : Opts) :
   refine ⟨rfl, rfl, rfl, rfl, rfl, rfl, rfl, rfl, ?_⟩
   simp only
   split <;> rfl
-
-/-- retention off: every data file that existed is still there, unchanged (O_CREATE only adds a missing one) -/
-theorem reopen_dats_keep0 (env : Env) (fs : FS) (o : Opts) (hk : o.keep = 0) (i : Nat) (file : Bytes)
-    (h : AL.get fs.dats i = some file) : AL.get (reopen env fs o).1.fs.dats i = some file := by
-  have hk' : (if o.maxCached = 0 then { o with maxCached := 100 } else o).keep = 0 := by split <;> exact hk
-  unfold reopen
-  simp only
-  unfold loadCleanup
-  simp only [hk', ne_eq, not_true_eq_false, false_and, ↓reduceIte]
-  split
-  · exact h
-  · rename_i hn
-    simp only [AL.get_set]
-    split
-    · rename_i e; rw [e, h] at hn; cases hn
-    · exact h
 
 theorem reopen_disk (env : Env) (hadv : env.advInvalid = true) (s : State) (sp sp' : Spec) (n : Nat) (hD : Disk env s sp n)
     (hI : IdxInv s) (hn : n < 2^31) (hw : ∀ k r, AL.get s.index k = some r → r.ipos.isSome = true) (hm : sp'.m = sp.m)
@@ -90,15 +75,29 @@ theorem reopen_disk (env : Env) (hadv : env.advInvalid = true) (s : State) (sp s
     subst a5
     rw [q1, q2, q3]; exact hD.recb k r0 p0 a2 a3
 
-/-- retention off: LoadBlockIndex re-establishes the refinement relation -/
+/-- what NewBlockDBExt + LoadBlockIndex do to the data files (O_CREATE of the current file, `loadCleanup`): every number
+    that is not lost afterwards was not lost before and resolves to the same bytes -/
+theorem reopen_keeps (env : Env) (fs : FS) (o : Opts) : Keeps fs (reopen env fs o).1.fs := by
+  rw [reopen_fs]
+  exact (createCur_keeps _ _).1.trans (loadCleanup_keeps _ _ _).1
+
+theorem reopen_cur (env : Env) (fs : FS) (o : Opts) :
+    ∃ f, AL.get (reopen env fs o).1.fs.dats (reopen env fs o).1.maxdatfileidx = some f := by
+  have e : (reopen env fs o).1.maxdatfileidx = (loadLoop env (fs.idx.length / RECSIZE + 1) fs.idx {}).maxdatfileidx :=
+    (reopen_state env fs o).2.2.2.1
+  rw [e, reopen_fs, (loadCleanup_keeps _ _ _).2]
+  exact (createCur_keeps _ _).2
+
+/-- EVERY option combination: LoadBlockIndex re-establishes the refinement relation -/
 theorem reopen_ref (env : Env) (hadv : env.advInvalid = true) (s : State) (sp sp' : Spec) (n : Nat) (hR : Ref env s sp)
     (hD : Disk env s sp n) (hI : IdxInv s) (hn : n < 2^31) (hw : ∀ k r, AL.get s.index k = some r → r.ipos.isSome = true)
-    (hm : sp'.m = sp.m) (hop : sp'.isOpen = true) (o : Opts) (hk : o.keep = 0) : Ref env (reopen env s.fs o).1 sp' := by
+    (hm : sp'.m = sp.m) (hop : sp'.isOpen = true) (o : Opts) : Ref env (reopen env s.fs o).1 sp' := by
   have L := load_linv env hadv s sp n hD hI hn
-  obtain ⟨e1, _, e3, e4, e5, e6, e7, _, e9⟩ := reopen_state env s.fs o
-  have hdats := reopen_dats_keep0 env s.fs o hk
+  have K := reopen_keeps env s.fs o
+  have hcur := reopen_cur env s.fs o
+  obtain ⟨e1, _, e3, e4, e5, e6, e7, _, _⟩ := reopen_state env s.fs o
   generalize loadLoop env (s.fs.idx.length / RECSIZE + 1) s.fs.idx {} = a at *
-  refine ⟨by rw [hop, e7], by rw [e9, hk], ?_, ?_, ?_, ?_, ?_, ?_, ?_⟩
+  refine ⟨by rw [hop, e7], fun _ => hcur, ?_, ?_, ?_, ?_, ?_, ?_, ?_⟩
   · intro k r hh
     rw [e1] at hh; rw [hm]
     obtain ⟨r0, p0, _, a2, _⟩ := L.l1 k r hh
@@ -123,11 +122,10 @@ theorem reopen_ref (env : Env) (hadv : env.advInvalid = true) (s : State) (sp sp
       refine ⟨recOf (recAt s.fs.idx p) p, ?_, by rw [q6, a2], by rw [q7, mt.olen], a4, ?_, ?_⟩
       · rw [e1]; exact L.l2 k r0 p a1 hp (by have := (hI.ipos k r0 p a1 hp).1; omega) mt.valid
       · intro hc; rw [q8] at hc; cases hc
-      · intro _
-        obtain ⟨d1, file, d2, d3, d4⟩ := a6 hs
-        unfold DataOK decodeStored at *
-        rw [q1, q2, q3, q4, q5]
-        exact ⟨d1, file, hdats _ file d2, d3, d4⟩
+      · intro _ hl
+        rw [q3] at hl
+        have d := DataOK_keeps env _ _ r0 e.raw K (a6 hs (K _ hl).1) hl
+        exact DataOK_congr env _ _ r0 _ e.raw rfl rfl q1 q2 q3 q4 q5 d
 
 /-! ### the invariant along a history -/
 
@@ -347,7 +345,7 @@ theorem init_core (env : Env) : Core env init {} 0 := by
   · intro _ k r hh; simp [init, AL.get] at hh
 
 theorem init_ref (env : Env) : Ref env init {} := by
-  refine ⟨rfl, rfl, ?_, ?_, ?_, ?_, ?_, ?_, ?_⟩
+  refine ⟨rfl, (fun h => by cases h), ?_, ?_, ?_, ?_, ?_, ?_, ?_⟩
   · intro k r hr; simp [init, AL.get] at hr
   · intro k r hr; simp [init, AL.get] at hr
   · intro k c hc; simp [init, AL.get] at hc
@@ -374,22 +372,18 @@ theorem run_core (env : Env) (hadv : env.advInvalid = true) : ∀ (ops : List Op
     have e : n + (ops.length + 1) = n + 1 + ops.length := by omega
     rw [e]; exact this
 
-/-! ### store_refines_map across close + reopen (retention off) -/
-
-def Op.keep0 : Op → Prop
-  | .reopen o => o.keep = 0
-  | _ => True
+/-! ### store_refines_map across close + reopen, every option combination -/
 
 theorem wf_sizeOK (env : Env) (op : Op) (h : Op.wf env op) : op.sizeOK := by
   cases op <;> simp [Op.sizeOK]
   exact h.2.1
 
 theorem step_ref2 (env : Env) (ok : EnvOK env) (hadv : env.advInvalid = true) (s : State) (sp : Spec) (n : Nat)
-    (hR : Ref env s sp) (hC : Core env s sp n) (op : Op) (hwf : Op.wf env op) (hk : op.keep0) (hn : n + 1 < 2^31) :
-    Ref env (step env s op).1 (specStep sp op) ∧ (claim sp op).holds (step env s op).2 := by
+    (hR : Ref env s sp) (hC : Core env s sp n) (op : Op) (hwf : Op.wf env op) (hn : n + 1 < 2^31) :
+    Ref env (step env s op).1 (specStep sp op) ∧ (claimR s sp op).holds (step env s op).2 := by
   cases op with
   | reopen o =>
-    have hcl : claim sp (.reopen o) = .nothing := by unfold claim; split <;> rfl
+    have hcl : claimR s sp (.reopen o) = .nothing := rfl
     rw [hcl]
     refine ⟨?_, trivial⟩
     unfold step specStep
@@ -398,7 +392,7 @@ theorem step_ref2 (env : Env) (ok : EnvOK env) (hadv : env.advInvalid = true) (s
     · simp only [ho, hC.opn, ↓reduceIte]; exact hR
     · simp only [ho, hC.opn, Bool.false_eq_true, ↓reduceIte]
       have hc : s.isOpen = false := by simpa using ho
-      exact reopen_ref env hadv s sp { sp with isOpen := true } n hR hC.disk hC.inv (by omega) (hC.closed hc) rfl rfl o hk
+      exact reopen_ref env hadv s sp { sp with isOpen := true } n hR hC.disk hC.inv (by omega) (hC.closed hc) rfl rfl o
   | add hash ht tx tr raw => exact step_ref env ok s sp hR _ rfl (wf_sizeOK env _ hwf)
   | get hash => exact step_ref env ok s sp hR _ rfl trivial
   | length hash d => exact step_ref env ok s sp hR _ rfl trivial
@@ -408,24 +402,32 @@ theorem step_ref2 (env : Env) (ok : EnvOK env) (hadv : env.advInvalid = true) (s
   | close => exact step_ref env ok s sp hR _ rfl trivial
 
 theorem run_ref2 (env : Env) (ok : EnvOK env) (hadv : env.advInvalid = true) : ∀ (ops : List Op) (s : State) (sp : Spec) (n : Nat),
-    Ref env s sp → Core env s sp n → (∀ op ∈ ops, Op.wf env op ∧ op.keep0) → n + ops.length < 2^31 →
-    AllHold (specRun sp ops) (run env s ops).2 := by
+    Ref env s sp → Core env s sp n → (∀ op ∈ ops, Op.wf env op) → n + ops.length < 2^31 →
+    AllHold (specRunR env s sp ops) (run env s ops).2 := by
   intro ops
   induction ops with
   | nil => intro s sp n _ _ _ _; exact trivial
   | cons op ops ih =>
     intro s sp n hR hC hops hn
     simp only [List.length_cons] at hn
-    obtain ⟨w1, w2⟩ := hops op (by simp)
-    obtain ⟨h1, h2⟩ := step_ref2 env ok hadv s sp n hR hC op w1 w2 (by omega)
+    have w1 := hops op (by simp)
+    obtain ⟨h1, h2⟩ := step_ref2 env ok hadv s sp n hR hC op w1 (by omega)
     have hC1 := step_core env hadv s sp n hC op w1 (by omega)
-    unfold run specRun
+    unfold run specRunR
     exact ⟨h2, ih _ _ (n + 1) h1 hC1 (fun op' hop' => hops op' (by simp [hop'])) (by omega)⟩
 
-/-- every history from the empty directory, restarts included (retention off) -/
+/-- every history from the empty directory, restarts included, every option combination: each reply satisfies the
+    retention-aware claim -/
+theorem restart_refinesR (env : Env) (ok : EnvOK env) (hadv : env.advInvalid = true) (ops : List Op)
+    (hops : ∀ op ∈ ops, Op.wf env op) (hlen : ops.length < 2^31) :
+    AllHold (specRunR env init {} ops) (run env init ops).2 :=
+  run_ref2 env ok hadv ops init {} 0 (init_ref env) (init_core env) hops (by omega)
+
+/-- the same with retention off in every session: the unconditional claim -/
 theorem restart_refines (env : Env) (ok : EnvOK env) (hadv : env.advInvalid = true) (ops : List Op)
     (hops : ∀ op ∈ ops, Op.wf env op ∧ op.keep0) (hlen : ops.length < 2^31) :
-    AllHold (specRun {} ops) (run env init ops).2 :=
-  run_ref2 env ok hadv ops init {} 0 (init_ref env) (init_core env) hops (by omega)
+    AllHold (specRun {} ops) (run env init ops).2 := by
+  rw [← specRunR_eq_specRun env ops init {} init_noloss (fun op hop => (hops op hop).2)]
+  exact restart_refinesR env ok hadv ops (fun op hop => (hops op hop).1) hlen
 
 end GocoinV.BlockDB
